@@ -636,7 +636,7 @@ def _children(d):
     raise ValueError(k)
 
 
-def random_world(rng, ctype):
+def random_world(rng, ctype, dups=None):
     """A random object graph in the format of Aoef!World (only reachable objects are listed)."""
     pick = lambda xs, lo, hi: rng.sample(xs, min(len(xs), rng.randint(lo, hi))) if xs else []
     one = lambda xs: [rng.choice(xs)] if xs and rng.random() < 0.6 else []
@@ -713,6 +713,18 @@ def random_world(rng, ctype):
         roots = {"clip_predictions": pick(cps, 0, 4)}
     else:
         roots = {"clip_evaluations": pick(ces, 0, 4)}
+    if (rng.random() < 0.35) if dups is None else dups:
+        # lists that mention one object TWICE (legal: tags, owners, sound events, sequences of an object; the members of the
+        # collection itself): the loaded object must list it twice again, at the same positions
+        for d in O:
+            for f in ("tags", "owners", "sound_events", "sequences"):
+                if d.get(f) and d["kind"] != "clip_eval" and rng.random() < 0.4:
+                    if ctype == "evaluation" and f == "sound_events" and d["kind"] in ("clip_ann", "clip_pred"):
+                        continue      # a clip evaluation wants every listed event matched exactly once
+                    d[f] = d[f] + [rng.choice(d[f])]
+        for k, v in roots.items():
+            if v and k != "tasks" and (dups or rng.random() < 0.5):
+                roots[k] = v + [rng.choice(v)]
     byid = {d["id"]: d for d in O}
     seen, front = set(), [x for v in roots.values() for x in v]
     while front:
@@ -729,7 +741,15 @@ def random_world(rng, ctype):
 
 
 def random_worlds(rng, n):
-    for _ in range(n):
+    # the first two worlds always list a member of the collection twice (an Evaluation and an AnnotationSet): the two open
+    # findings about repeated members are exercised by every run
+    for ct, f in (("evaluation", "clip_evaluations"), ("annotation_set", "clip_annotations")):
+        for _ in range(200):
+            w = random_world(rng, ct, dups=True)
+            if len(set(w["roots"][f])) < len(w["roots"][f]):
+                yield w
+                break
+    for _ in range(n - 2):
         yield random_world(rng, rng.choice(list(CTYPE_CLASS)))
 
 
